@@ -276,12 +276,26 @@ def shape_in_slide(pkg, slide_pn, shape_id):
     return sh, (pkg.blob(tgt) if tgt and pkg.has_part(tgt) else None)
 
 
-def renumber(data, gap_seed):
+def renumber(data, gap_seed, force_shared=False):
     """Rename ppt/media/imageN.ext consistently (members, relationship targets) so that the numbering has gaps."""
     rnd = random.Random(gap_seed)
     zin = zipfile.ZipFile(io.BytesIO(data))
     olds = sorted(n[len("ppt/media/") :] for n in zin.namelist() if re.fullmatch(r"ppt/media/image\d+\.\w+", n))
     idxs = rnd.sample(range(1, len(olds) + 5), len(olds))
+    # two parts may share an index under different extensions (image1.png + image1.jpg): legal, and what
+    # PowerPoint-authored decks contain; the next free name must still be chosen per whole name
+    if len(olds) >= 2 and (force_shared or rnd.random() < 0.5):
+        exts = [o.rsplit(".", 1)[1] for o in olds]
+        pairs = [(i, j) for i in range(len(olds)) for j in range(i + 1, len(olds)) if exts[i] != exts[j]]
+        if pairs:
+            i, j = rnd.choice(pairs)
+            idxs[j] = idxs[i]
+            if force_shared or rnd.random() < 0.6:  # dense numbering around the shared index: 1,1,2,3,... (no gap to fall into)
+                rest = [k for k in range(len(olds)) if k not in (i, j)]
+                rnd.shuffle(rest)
+                idxs[i] = idxs[j] = 1
+                for n, k in enumerate(rest):
+                    idxs[k] = n + 2
     mapping = {}
     for old, idx in zip(olds, idxs):
         mapping[old.encode()] = ("image%d.%s" % (idx, old.rsplit(".", 1)[1])).encode()
@@ -368,7 +382,7 @@ class Run:
             if op.get("gap") is not None:
                 from vlib import opcx
 
-                gapped = renumber(data, op["gap"])
+                gapped = renumber(data, op["gap"], op.get("shared", False))
                 if opcx.closure_problems(opcx.Pkg.from_bytes(gapped)) == opcx.closure_problems(opcx.Pkg.from_bytes(data)):
                     data = gapped
                     acc.hit("reopen-after-renumbering")
@@ -578,6 +592,19 @@ def gen_history(i):
             op["prog"] = rnd.choice(["xlsx", "str"])
         return op
 
+    if i % 10 == 9:
+        # directed family: media parts sharing an index under different extensions (image1.png + image1.jpg,
+        # image2.png ...) at re-open, then a NEW image of an extension already present is added
+        fmts = [rnd.choice(["png", "gif"]), "jpeg", None, None]
+        fmts[2] = fmts[3] = fmts[0]
+        recipes = [gen_recipe(rnd, f, k) for k, f in enumerate(fmts)]
+        base = {"slide": 0, "x": 0, "y": 0, "w": None, "h": None}
+        ops = [{"op": "slide"}] + [dict(base, op="pic", img=k, via={"how": "stream"}) for k in (0, 1, 2)]
+        ops.append({"op": "reopen", "gap": rnd.randrange(1 << 30), "shared": True})
+        ops.append(dict(base, op="pic", img=3, via={"how": "stream"}))
+        ops.append(dict(base, op="pic", img=0, via={"how": "stream"}))
+        ops.append({"op": "save"})
+        return {"recipes": recipes, "ops": ops}
     n = rnd.randint(6, 14)
     cut = rnd.randint(2, n - 2)
     ops = [{"op": "slide"}]
